@@ -257,3 +257,13 @@ Example C19_hover_inlay_example : exists S, run_ops ex_ops19 = SOk S /\
   inlay_hint S ex_trees (mkFR 1 0 4) = SOk (Some [mkHint 2 (s2n "x:") HKTemplateArg]) /\
   inlay_hint S ex_trees (mkFR 1 0 1) = SOk (Some []).
 Proof. eexists. split; [vm_compute; reflexivity|]. repeat split; vm_compute; reflexivity. Qed.
+
+(** non-vacuity of C19_inlay_let: `let f = 1;` as FieldLet[LetKw ws Identifier[Id "f" ws] Equal ...]: the override of a
+    field of type int whose name occupies [4,5) gets the hint ":int" at 5 *)
+Definition ex_let_tree : tree :=
+  Node S_SourceFile [Node S_FieldLet [Tok S_LetKw [108;101;116]; Tok S_Whitespace [32];
+     Node S_Identifier [Tok S_Id [102]; Tok S_Whitespace [32]]; Tok S_Equal [61]; Tok S_Whitespace [32];
+     Node S_Value [Tok S_IntVal [49]]; Tok S_Semi [59]]].
+Example C19_inlay_let_example :
+  inlay_hint_record_field ex_let_tree (s2n "int") 4 5 = [mkHint 5 (s2n ":int") HKFieldLet].
+Proof. vm_compute. reflexivity. Qed.
